@@ -1401,6 +1401,19 @@ def _d_update(ex, st, dref, args, kwargs):
         raise U("dict.update with symbolic source (needs a loop-free model)")
 
 
+def _d_clear(ex, st, dref, args, kwargs):
+    d = st.deref(dref)
+    bm._mutable_check(ex, st, d)
+    if isinstance(d, PDict):
+        d.items.clear()
+    elif isinstance(d, SDict):
+        empty = bm.pdict_to_sdict(PDict({}), d.ksort, d.vsort)
+        d.set_terms(empty.terms())
+    else:
+        raise U(f"dict.clear of {d!r}")
+    yield st, None
+
+
 def _s_contains(ex, st, s, args, kwargs):
     yield from bm.contains(ex, st, s, args[0])
 
@@ -1437,7 +1450,7 @@ METHODS = {
     ("list", "clear"): _l_clear, ("list", "extend"): _l_extend, ("list", "copy"): _l_copy,
     ("dict", "get"): _d_get, ("dict", "items"): _d_items, ("dict", "keys"): _d_keys,
     ("dict", "values"): _d_values, ("dict", "copy"): _d_copy, ("dict", "pop"): _d_pop,
-    ("dict", "update"): _d_update, ("set", "__contains__"): _s_contains, ("set", "add"): _s_add,
+    ("dict", "update"): _d_update, ("dict", "clear"): _d_clear, ("set", "__contains__"): _s_contains, ("set", "add"): _s_add,
     ("regex", "search"): _regex_test("search"), ("regex", "match"): _regex_test("match"),
     ("regex", "fullmatch"): _regex_test("fullmatch"),
 }
